@@ -651,14 +651,17 @@ def write_evidence(pid, P, tier, seed, t0, rep, fatal, results=None, extra=None)
         if s not in samples:
             samples.append(s)
     trusted = sorted(rep["trusted"]) + [
-        "govc itself (VC generator over go/ssa, ~8.8 kloc, tested by the must-fail corpus)", "go/ssa naive form agrees with the compiler",
+        "govc itself (VC generator over go/ssa, ~10 kloc, tested by the must-fail corpus)", "go/ssa naive form agrees with the compiler",
         "SMT solvers z3 5.1.0 / z3 4.8.12 / cvc5 1.0",
     ]
     int_mode = [f["name"] for f in rep["functions"] if f["mode"] == "int"]
     assumptions = list(P.get("assumptions", []))
     if int_mode:
         assumptions.append("int/int64 arithmetic treated as mathematical (no overflow) in: " + ", ".join(int_mode))
-    assumptions.append("nil dereference is assumed away (not checked) unless a contract says check-nil; method receivers are non-nil")
+    nil_fns = sorted(set(o["fname"] for o in obls if o["kind"] == "nil"))
+    no_nil = sorted(set(f["name"] for f in rep["functions"]) - set(nil_fns))
+    assumptions.append("nil dereference: checked (an obligation per dereference, %d in all) in %d functions; assumed away in the other %d: %s"
+                       % (len([o for o in obls if o["kind"] == "nil"]), len(nil_fns), len(no_nil), ", ".join(no_nil) or "-"))
     assumptions.append("functions are verified as sequential code; fields not under a declared monitor are assumed race-free")
     n_abs = sum(len(v) for v in rep["abstractions"].values())
     explanation = P["claim"]
